@@ -383,13 +383,12 @@ def _ijepa_request(case, log):
 
 
 def ijepa_in_domain(case, ans):
-    """configured blocks fit the grid and are real blocks (at least two patches; a single-patch index tensor is squeezed to
-    0-d by the code, reported as an observation)"""
+    """configured blocks fit the grid and are real blocks (at least one patch)"""
     if not (case["H"] >= 2 and case["W"] >= 2 and case["nPred"] >= 1 and case["nEnc"] >= 1 and case["tries"] >= 1 and case["B"] >= 1):
         return False
     if ans.get("out") == "ok":
         ps, es = ans["pred_size"], ans["enc_size"]
-        return ps is not None and es is not None and ps[0] * ps[1] >= 2 and es[0] * es[1] >= 2
+        return ps is not None and es is not None and ps[0] * ps[1] >= 1 and es[0] * es[1] >= 1
     return False
 
 
@@ -408,8 +407,13 @@ def ijepa_oracle(case, ans, aux):
     H, W, B = case["H"], case["W"], case["B"]
     tag = (f"grid={H}x{W} B={B} nPred={case['nPred']} nEnc={case['nEnc']} min_keep={case['minKeep']} tries={case['tries']} "
            f"enc_scale={case['enc_scale']} pred_scale={case['pred_scale']} ar={case['pred_ar']} counter={case['counter']} seed={case['seed']}")
-    if ans["out"] in ("nonterm", "len0d"):
-        return None   # outside the claim (observations)
+    if ans["out"] == "nonterm":
+        return None   # outside the claim (observation)
+    if ans["out"] == "len0d":
+        if case["H"] >= 2 and case["W"] >= 2 and case["nPred"] >= 1 and case["nEnc"] >= 1 and case["tries"] >= 1:
+            return Failure("ijepa:single-index-mask", f"a mask with exactly one index is squeezed to a 0-d tensor and len() raises "
+                           f"({aux.get('exc', '')}) for {tag}", case, "index tensors", ans["out"])
+        return None
     if ans["out"] != "ok":
         if case["H"] >= 2 and case["W"] >= 2 and case["nPred"] >= 1 and case["nEnc"] >= 1 and case["tries"] >= 1:
             return Failure("ijepa:crash", f"collator does not return ({aux.get('exc', ans['out'])}) for {tag}", case, "masks", ans["out"])
@@ -473,8 +477,8 @@ def gen_ijepa(rng, small=False):
         mk = min(mk, max(area // 3, 0))
     else:
         mk = rng.choice([0, 4, 10, 40])
-    if rng.random() < 0.85 and H * W * pscale[0] < 2.5:
-        pscale = (max(pscale[0], 2.6 / (H * W)), max(pscale[1], 2.6 / (H * W)))
+    if rng.random() < 0.7 and H * W * pscale[0] < 1.1:
+        pscale = (min(max(pscale[0], 1.1 / (H * W)), 1.0), min(max(pscale[1], 1.1 / (H * W)), 1.0))
     return {"kind": "ijepa", "H": H, "W": W, "ps": rng.choice([1, 2, 16]), "B": rng.randint(1, 5), "enc_scale": list(es),
             "pred_scale": list(pscale), "pred_ar": list(par), "nPred": rng.randint(1, 4), "nEnc": rng.randint(1, 2),
             "minKeep": mk, "tries": rng.choice([1, 2, 20]), "counter": rng.randint(-1, 20),
@@ -601,8 +605,6 @@ class C17(PropertyCheck):
                 res.bump("ijepa:relaxed" if extra > 0 else "ijepa:first-try")
             if ans["out"] == "nonterm":
                 res.observations.append({"what": "constrained encoder sampler does not end (block of <= min_keep admissible cells)", "case": case})
-            if ans["out"] == "len0d":
-                res.observations.append({"what": "single-patch block: index tensor squeezed to 0-d, len() raises", "case": case})
             if i % 7 == 0:
                 res.bump("proxy-transparency-checked")
                 if not transparent(case, ans):
